@@ -265,6 +265,9 @@ func (self Reflect) listSlice(v reflect.Value, onChange OnListValueChange) node.
 				appendedItem := v.Index(v.Len() - 1)
 				return self.child(appendedItem), key, nil
 			} else if key != nil {
+				if !isKeyValid(key) {
+					return nil, nil, fmt.Errorf("%w. incomplete key for entry of %s", fc.BadRequestError, r.Meta.Ident())
+				}
 				if entries == nil {
 					var err error
 					entries, err = self.buildKeys(r.Selection, r.Meta.KeyMeta(), v)
@@ -341,7 +344,10 @@ func (self Reflect) listMap(v reflect.Value) node.Node {
 				keyVal := reflect.ValueOf(key[0].Value())
 				v.SetMapIndex(keyVal, item)
 				keys = nil
-			} else if isKeyValid(key) {
+			} else if key != nil {
+				if !isKeyValid(key) {
+					return nil, nil, fmt.Errorf("%w. incomplete key for entry of %s", fc.BadRequestError, r.Meta.Ident())
+				}
 				keyVal := reflect.ValueOf(key[0].Value())
 				if r.Delete {
 					v.SetMapIndex(keyVal, reflect.ValueOf(nil))
